@@ -10,7 +10,8 @@ harness/c16_assembly_*.cpp (common/vasm16*.hpp)  execute the jobs on the real cl
 """
 import json, os, shutil, glob, time
 import concurrent.futures as cf
-import vlib
+import random
+import vlib, vmeshlib
 
 LEVEL = "model_checking"
 MESHDIR = os.path.join(vlib.REPO, "data", "meshes")
@@ -196,39 +197,45 @@ def _run(chk, tier, gdir):
 
     # ---- cases: every mesh of a class x every plan of that (shape, dim, class) ----
     bycase = {}
-    perbin = {}
     route_cover = {}
-    for name, shape, dim, cls, src, ncells in mesh_catalogue(tier):
-        if (shape, dim) not in have:
-            continue
-        for (psh, pd, pcl, test, trial), jobs in plans.items():
-            if (psh, pd, pcl) != (shape, dim, cls):
+
+    def cases_for(meshes):
+        perbin = {}
+        for name, shape, dim, cls, src, ncells in meshes:
+            if (shape, dim) not in have:
                 continue
-            ndof_guess = ncells * (9 if dim == 2 else 27)
-            base = {"shape": shape, "dim": dim, "class": cls, "mesh": src, "meshname": name, "test": test, "trial": trial,
-                    "dense": ncells <= 8, "pat": ncells <= (300 if dim == 2 else 70)}
-            def jkey(j):
-                return json.dumps([shape, dim, cls, test, trial, j["k"], j.get("op", j.get("fn", j.get("bop"))), j["deg"]], sort_keys=True)
-            js = [restrict(j, SCALAR_ROUTES) for j in jobs if j["k"] != "blk"]
-            js = [j for j in js if j["ref"] in j["routes"]]
-            cid = "%s_%s_%s" % (name, test, trial)
-            c = dict(base, id=cid, jobs=js, out=os.path.join(gdir, cid + ".json"))
-            perbin.setdefault(have[(shape, dim)], []).append(c)
-            bycase[cid] = c
-            for j in jobs:
-                route_cover.setdefault(jkey(j), [set(j["routes"]), set()])
-            for j in js:
-                route_cover[jkey(j)][1] |= set(j["routes"])
-            if (shape, dim) in specials:
-                sj = [restrict(j, SPECIAL_ROUTES + ["classic"]) for j in jobs if j["k"] == "mat" and set(j["routes"]) & set(SPECIAL_ROUTES)]
-                sj += [j for j in jobs if j["k"] == "blk"]
-                if sj:
-                    cid2 = cid + "_sp"
-                    c2 = dict(base, id=cid2, jobs=sj, out=os.path.join(gdir, cid2 + ".json"), dense=False, pat=False)
-                    perbin.setdefault(specials[(shape, dim)], []).append(c2)
-                    bycase[cid2] = c2
-                    for j in sj:
-                        route_cover[jkey(j)][1] |= set(j["routes"])
+            for (psh, pd, pcl, test, trial), jobs in plans.items():
+                if (psh, pd, pcl) != (shape, dim, cls):
+                    continue
+                base = {"shape": shape, "dim": dim, "class": cls, "mesh": src, "meshname": name, "test": test, "trial": trial,
+                        "dense": ncells <= 8, "pat": ncells <= (300 if dim == 2 else 70)}
+
+                def jkey(j):
+                    return json.dumps([shape, dim, cls, test, trial, j["k"], j.get("op", j.get("fn", j.get("bop"))), j["deg"]], sort_keys=True)
+                js = [restrict(j, SCALAR_ROUTES) for j in jobs if j["k"] != "blk"]
+                js = [j for j in js if j["ref"] in j["routes"]]
+                cid = "%s_%s_%s" % (name, test, trial)
+                c = dict(base, id=cid, jobs=js, out=os.path.join(gdir, cid + ".json"))
+                perbin.setdefault(have[(shape, dim)], []).append(c)
+                bycase[cid] = c
+                for j in jobs:
+                    route_cover.setdefault(jkey(j), [set(j["routes"]), set()])
+                for j in js:
+                    route_cover[jkey(j)][1] |= set(j["routes"])
+                if (shape, dim) in specials:
+                    sj = [restrict(j, SPECIAL_ROUTES + ["classic"]) for j in jobs if j["k"] == "mat" and set(j["routes"]) & set(SPECIAL_ROUTES)]
+                    sj += [j for j in jobs if j["k"] == "blk"]
+                    if sj:
+                        cid2 = cid + "_sp"
+                        c2 = dict(base, id=cid2, jobs=sj, out=os.path.join(gdir, cid2 + ".json"), dense=False, pat=False)
+                        perbin.setdefault(specials[(shape, dim)], []).append(c2)
+                        bycase[cid2] = c2
+                        for j in sj:
+                            route_cover[jkey(j)][1] |= set(j["routes"])
+        return perbin
+
+    catalogue = mesh_catalogue(tier)
+    perbin = cases_for(catalogue)
     uncovered = {k: sorted(v[0] - v[1]) for k, v in route_cover.items() if v[0] - v[1]}
     if [k for k in uncovered if tuple(json.loads(k)[:2]) in specials]:
         raise vlib.MachineryError("routes of the catalogue that no harness executes: %s" % list(uncovered.items())[:3])
@@ -236,38 +243,66 @@ def _run(chk, tier, gdir):
 
     # ---- harness: execute and dump ----
     dumps = []
-    margin = 0.0
-    for b, cs in perbin.items():
-        t0 = time.time()
-        res = vlib.run_cases(paths[b], cs, tmo=300, shards=8)
-        vlib.log("[c16] %s: %d cases, %d jobs, %.1fs" % (b, len(cs), sum(len(c["jobs"]) for c in cs), time.time() - t0))
-        retry = []
-        for c, r in zip(cs, res):
-            if r.get("ok") is True:
-                margin = max(margin, r.get("margin", 0.0))
-                dumps.append(c)
-            elif len(c["jobs"]) > 1:
-                # the case did not complete (FEAT aborts the process): run its jobs one by one to attribute the failure to a job
-                for k, j in enumerate(c["jobs"]):
-                    cid = "%s_job%d" % (c["id"], k)
-                    c1 = dict(c, id=cid, jobs=[j], out=os.path.join(gdir, cid + ".json"), pat=False, dense=False)
-                    retry.append(c1)
-                    bycase[cid] = c1
-                c0 = dict(c, id=c["id"] + "_nojob", jobs=[], out=os.path.join(gdir, c["id"] + "_nojob.json"))
-                retry.append(c0)
-                bycase[c0["id"]] = c0
-            else:
-                retry.append(None)
-                report_harness_failure(chk, b, c, r)
-        retry = [c for c in retry if c is not None]
-        if retry:
-            res = vlib.run_cases(paths[b], retry, tmo=300, shards=8)
-            for c, r in zip(retry, res):
+    margin = [0.0]
+
+    def harness_pass(perbin):
+        for b, cs in perbin.items():
+            t0 = time.time()
+            res = vlib.run_cases(paths[b], cs, tmo=300, shards=8)
+            vlib.log("[c16] %s: %d cases, %d jobs, %.1fs" % (b, len(cs), sum(len(c["jobs"]) for c in cs), time.time() - t0))
+            retry = []
+            for c, r in zip(cs, res):
                 if r.get("ok") is True:
-                    margin = max(margin, r.get("margin", 0.0))
+                    margin[0] = max(margin[0], r.get("margin", 0.0))
                     dumps.append(c)
+                elif len(c["jobs"]) > 1:
+                    # the case did not complete (FEAT aborts the process): run its jobs one by one to attribute the failure to a job
+                    for k, j in enumerate(c["jobs"]):
+                        cid = "%s_job%d" % (c["id"], k)
+                        c1 = dict(c, id=cid, jobs=[j], out=os.path.join(gdir, cid + ".json"), pat=False, dense=False)
+                        retry.append(c1)
+                        bycase[cid] = c1
+                    c0 = dict(c, id=c["id"] + "_nojob", jobs=[], out=os.path.join(gdir, c["id"] + "_nojob.json"))
+                    retry.append(c0)
+                    bycase[c0["id"]] = c0
                 else:
                     report_harness_failure(chk, b, c, r)
+            if retry:
+                res = vlib.run_cases(paths[b], retry, tmo=300, shards=8)
+                for c, r in zip(retry, res):
+                    if r.get("ok") is True:
+                        margin[0] = max(margin[0], r.get("margin", 0.0))
+                        dumps.append(c)
+                    else:
+                        report_harness_failure(chk, b, c, r)
+
+    harness_pass(perbin)
+
+    # ---- seeded re-numbered / re-oriented variants (vertex and cell permutation, a rotation of the reference cell per cell;
+    #      the admissible rotations come from spec/RefCell.tla through RefCellSanity) ----
+    rng = random.Random(vlib.seed())
+    r = vlib.tlc("RefCellSanity", timeout=600)
+    chk.add_tlc(r, "RefCellSanity (rotation tables)")
+    rots = {(c["fam"], c["dim"]): c["rot"] for c in r.printed}
+    nvar = 2 if tier == "thorough" else 1
+    maxcells = 100 if tier == "thorough" else 20
+    first = {}
+    for c in dumps:
+        first.setdefault(c["meshname"], c)
+    variants = []
+    for name, shape, dim, cls, src, ncells in catalogue:
+        if ncells > maxcells or name not in first:
+            continue
+        with open(first[name]["out"]) as f:
+            d = json.loads(f.readline())
+        raw = {"X": d["X"], "cs": d["G"].bit_length() - 1, "cells": d["vc"]}
+        for k in range(nvar):
+            nraw, _ = vmeshlib.renumber(raw, rots[(shape, dim)], rng)
+            nraw["route"] = "deduct" if (k + len(variants)) % 2 == 0 else "factory"
+            variants.append(("%s_perm%d" % (name, k), shape, dim, cls, {"raw": nraw}, ncells))
+    chk.extra["renumbered_variants"] = len(variants)
+    harness_pass(cases_for(variants))
+    margin = margin[0]
     chk.extra["max_projection_margin"] = margin
 
     # ---- TLC judges every dump ----
